@@ -58,6 +58,19 @@ def eval_valid(case):
         if len(k) != len(sat):
             viol.append(V("valid/length", f"{len(k)} rows for {len(sat)} saturation records", case=c))
             continue
+        if n % 5 == 1:
+            # a record's permeabilities depend on that record alone: the same records in reversed order, as a record
+            # array (the documented input type), and a sub-batch give bitwise the same values
+            with np.errstate(all="ignore"):
+                k_rev = relative_permeabilities(sat[::-1].copy().view(np.recarray), prm)
+                k_sub = relative_permeabilities(sat[len(sat) // 3: len(sat) // 3 + 7].copy(), prm)
+            for name in ("kro", "krw", "krg"):
+                a0 = np.asarray(k[name], dtype=float)
+                if not (np.array_equal(np.asarray(k_rev[name], dtype=float)[::-1], a0, equal_nan=True)
+                        and np.array_equal(np.asarray(k_sub[name], dtype=float), a0[len(sat) // 3: len(sat) // 3 + 7], equal_nan=True)):
+                    viol.append(V(f"elementwise/{name}", f"{name} of a saturation record depends on which other records are in the "
+                                  "same call (reversed batch / sub-batch give other values)", case=c))
+                    break
         for (kname, sname, _, rname, mname) in PH:
             kv, sv = np.asarray(k[kname], dtype=float), sat[sname]
             s_r, k_max = getattr(prm, rname), getattr(prm, mname)
@@ -163,7 +176,7 @@ def eval_twophase(case):
         try:
             relative_permeabilities_twophase(prm, sw)
             viol.append(V("twophase/mobile-water-accepted", f"Sw={sw} > S_wc={s_wc} accepted", case=case))
-        except ValueError:
+        except Exception:  # noqa: BLE001 - any error type is a rejection
             pass
     return {"violations": viol[:3], "evals": 5, "outcome": "twophase", "key": ("2p",) + tuple(case["res"])}
 
